@@ -31,7 +31,7 @@ impl Vob {
     pub fn or(&mut self, other: &Vob) -> (changed: bool)
         requires old(self)@.len() == other@.len(), // OBLG: vob_or_same_length
         ensures final(self)@.len() == old(self)@.len(),
-            forall|i: int| 0 <= i < old(self)@.len() ==> final(self)@[i] == (old(self)@[i] || other@[i]),
+            forall|i: int| 0 <= i < old(self)@.len() ==> #[trigger] final(self)@[i] == (old(self)@[i] || other@[i]),
             changed == (final(self)@ != old(self)@),
     { unimplemented!() }
 }
